@@ -29,7 +29,9 @@ PROFILES = {
     # (variants = reloads that change the bmp unit's router_id_template; V k reads which template labels a router's series)
     # ... and, in 40 % of the cases, a Roto script: named at start-up (F), edited / renamed / removed (W) and a second RIB unit
     # added / removed / re-typed (Y) before a reload; P asks the second unit
-    "C13": dict(peers=pipegen.DISTINCT_PEERS, reup=False, metrics=False, query_ops=True, reload=True, reload_pc=100, variants=True, scripts=40),
+    # ... and, in 35 % of the cases, a shorthand RIB (K n: `filter_names` with n+1 entries = a physical RIB and n generated vRIBs) whose
+    # vRIB endpoints are asked (N i af p) at start-up and after every reload, also reloads that change the number of vRIBs
+    "C13": dict(peers=pipegen.DISTINCT_PEERS, reup=False, metrics=False, query_ops=True, reload=True, reload_pc=100, variants=True, scripts=40, vribs=35),
     # C10: which script a unit's rib-in-pre filter comes from: every case has a script story (F / W / Y / P around reloads)
     "C10": dict(peers=pipegen.DISTINCT_PEERS, reup=False, metrics=False, query_ops=True, reload=False, scripts=100),
     # C14: routers come back, also after the listener was re-bound; G k = how many ingress ids router k has been given
@@ -130,6 +132,67 @@ CORPUS["C13"] = CORPUS["C13"] + SCRIPT_CORPUS + [
 ]
 
 
+# Generated vRIBs: K n = `[units.rib]` is a shorthand RIB with n generated vRIBs (leading: at start-up; later: with the next reload),
+# N i af p = the prefix query asked of vRIB i (GET /prefixes/<i>/<prefix>).
+VRIB_CORPUS = [
+    # seeded C13-b1 (the rib unit adopted the new vrib_upstream link only for rib_type == Virtual, which GeneratedVirtual(n) is not):
+    # after ANY reload a query of a generated vRIB went out over the link of the previous configuration and was never answered
+    "K 2;N 0 0 7;N 1 0 7;N 2 0 7;H;N 0 0 7;N 1 0 7;N 2 0 7",
+    "K 1;C 0;I 0;U 0 0 0;R 0 0 0 1 1,2 0 -;N 0 0 7;L;N 0 0 7;Q 0 1;H;H 1;N 0 1 8;R 0 0 0 2 3 0 -;Q 0 3;N 0 0 7;X 0;N 0 0 8;Q 0 3",
+    # reloads that change the number of vRIBs: added ones are started and answer, the others are reconfigured (and answer), removed
+    # ones stop answering; the null target is re-sourced to the last vRIB each time
+    "K 1;N 0 0 7;H;N 0 0 7;K 3;N 2 0 7;L;N 2 0 7;N 1 0 7;N 0 0 7;K 0;H;N 0 0 7;Q 0 1;K 2;H;N 1 0 7;N 0 0 7",
+    "C 0;I 0;U 0 0 0;R 0 0 0 1 1 0 -;K 2;H;N 1 0 7;Q 0 1;H;N 1 0 7;N 0 0 7;R 0 0 0 2 2 0 -;Q 0 2;N 1 0 8",
+    # with a script: the physical RIB rejects prefix 1, so the vRIBs can be asked about it (an announced prefix, an empty answer);
+    # a vRIB added by a reload, a second rib unit next to the chain
+    "F 1;K 2;C 0;I 0;U 0 0 0;R 0 0 0 1 1,2 0 -;N 1 0 1;Q 0 1;Q 0 2;W 2;K 3;H;N 2 0 1;N 0 0 1;Y 1;H;N 2 0 1;P 0 1;P 0 2;Q 0 2",
+    # known finding C13-vrib-query-todo: a vRIB asked about a prefix the physical RIB holds a route for never answers
+    # (reprocess_rib_value is todo!(): the physical RIB's task panics); the neighbouring prefix is answered
+    "K 1;C 0;I 0;U 0 0 0;R 0 0 0 1 1 0 -;N 0 0 2;N 0 0 1;Q 0 1",
+]
+CORPUS["C13"] = CORPUS["C13"] + VRIB_CORPUS
+
+
+def vrib_story(rng, ops):
+    """Makes `rib` a shorthand RIB with generated vRIBs: K n among the leading ops, sometimes another K before a reload (vRIBs are
+    added / removed), at least one reload, and the vRIB endpoints asked at start-up, after every reload and at the end. The prefixes
+    asked are ones the physical RIB never holds a route for (7, 8: never announced; the prefix the start-up script rejects): a vRIB
+    asked about a stored prefix never answers (known finding C13-vrib-query-todo, corpus only)."""
+    out = list(ops)
+    lead = 1 if out and out[0].startswith("F ") else 0
+    s0 = int(out[0].split()[1]) if lead else 0
+    safe = [7, 8] + ([s0] if 1 <= s0 <= 8 else [])
+    n = rng.weighted([(1, 45), (2, 35), (3, 15), (0, 5)])
+    have = sum(1 for o in out if o.split()[0] in ("H", "L"))
+    for _ in range(max(0, rng.range(1, 2) - have)):
+        out.insert(lead + rng.below(len(out) - lead + 1), rng.choice(["H", "H", "L"]))
+
+    def ask(res, cnt):
+        for i in range(cnt):
+            if rng.chance(80):
+                res.append(f"N {i} {rng.choice([0, 0, 1])} {rng.choice(safe)}")
+        if rng.chance(30):
+            res.append(f"N {cnt} 0 {rng.choice(safe)}")      # the path behind the last vRIB
+
+    res = out[:lead] + [f"K {n}"]
+    cur = pending = n
+    if rng.chance(60):
+        ask(res, cur)
+    for o in out[lead:]:
+        w = o.split()
+        if w[0] in ("H", "L") and rng.chance(35):
+            pending = rng.weighted([(0, 10), (1, 35), (2, 35), (3, 20)])
+            res.append(f"K {pending}")
+        res.append(o)
+        if w[0] in ("H", "L"):
+            cur = pending
+            ask(res, cur)
+        elif rng.chance(8):
+            ask(res, cur)
+    ask(res, cur)
+    return res
+
+
 def script_story(rng, ops):
     """Weaves a script story into a case: a start-up script, then 1-2 reloads preceded by edits of the script and / or of
     [units.rib2]; every Q gets a P next to it, and at the end both units are asked about the prefixes scripts may reject."""
@@ -190,6 +253,8 @@ def e2e_engine(prop):
                     out.insert(rng.below(len(out) + 1), rng.choice(kinds))
             if pr.get("scripts") and rng.chance(pr["scripts"]):
                 out = script_story(rng, out)
+            if pr.get("vribs") and rng.chance(pr["vribs"]):
+                out = vrib_story(rng, out)
             if pr.get("variants") or pr.get("ids"):
                 # read the label / the id count of every router after each of its Initiation messages, after reloads and at the end
                 tok = "V" if pr.get("variants") else "G"
@@ -213,6 +278,8 @@ def e2e_engine(prop):
         if any(x.startswith("q:") and ("," in x or "=W" in x) for x in t):
             return True
         if any(x.startswith("p:") and x not in ("p:", "p:-") for x in t):
+            return True
+        if any(x.startswith("v:") and x != "v:-" for x in t):
             return True
         if any(x.startswith("n:") and not x.endswith(",0") for x in t):
             return True
@@ -259,6 +326,19 @@ def e2e_engine(prop):
             ks.append("second-rib-answers")
         if any(o.split()[:2] == ["Y", "2"] for o in ops if o.split()):
             ks.append("second-unit-retyped")
+        if any(x.startswith("v:") and x != "v:-" for x in t):
+            ks.append("vrib-answers")
+            seen_reload = False
+            for o, x in (zip(ops, t) if len(t) == len(ops) else []):
+                if o.split() and o.split()[0] in ("H", "L"):
+                    seen_reload = True
+                if seen_reload and x.startswith("v:") and x != "v:-":
+                    ks.append("vrib-answers-after-reload")
+                    break
+        if sum(1 for o in ops if o.split() and o.split()[0] == "K") >= 2:
+            ks.append("vrib-count-edited")
+        if "v:STALL" in t:
+            ks.append("vrib-never-answers")
         # the same prefix asked of both units, one after the other, with different answers: a filter (or the time of spawn) shows
         for a, b, oa, ob in (zip(t, t[1:], ops, ops[1:]) if len(t) == len(ops) else []):
             if a.startswith("q:") and b.startswith("p:") and b != "p:-" and oa[1:] == ob[1:] and a[2:] != b[2:]:
